@@ -7,6 +7,8 @@
 (*              the decoders produced                                       *)
 (*   RoundTrip  marshalled messages decoded again                           *)
 (*   Nats       natsToProtoMessage on the same table (package server)       *)
+(*   Subject    bytes published to one of the server's NATS subjects       *)
+(*   Inventory  the live subscription list / the source's call sites        *)
 (*   PublishRaw a raw NATS publish to a running server, with the stream's   *)
 (*              log after it                                                *)
 (* P-level failures are printed as FAIL "P" (violations of the property on  *)
@@ -101,6 +103,17 @@ TraceNext ==
             /\ Chk(up', "P", e, "C14_ServerUp", 0)
             /\ Chk(up' => P_Internal, "P", e, "C14_Internal", 0)
             /\ Chk(DoInternal(e.args.h, e.args.i, e.args.pbOK, e.args.shape), "I", e, "Internal", 0)
+       [] e.a = "Subject" ->
+            /\ BindSrv(e)
+            /\ Chk(up', "P", e, "C14_ServerUp", 0)
+            /\ Chk(up' => P_Subject(e.args.h, e.args.i, e.args.pbOK), "P", e, "C14_Subject", 0)
+            /\ Chk(SubjectConforms(e.args.h, e.args.i, e.args.pbOK, e.args.ent), "I", e, "Subject", 0)
+       [] e.a = "Inventory" ->
+            \* the subscriptions of the live server (embedded NATS server's list) and the subscribe / request
+            \* call sites of the source against the inventory of the specification
+            /\ Chk({e.subs[j] : j \in 1..Len(e.subs)} = LivePatterns, "I", e, "LiveSubjects", 0)
+            /\ Chk({e.sites[j] : j \in 1..Len(e.sites)} = SourceSites, "I", e, "SourceSites", 0)
+            /\ UNCHANGED vars
        [] OTHER -> Fail("C", e, "unknown-line", 0) /\ UNCHANGED vars
 
 TraceSpec == TraceInit /\ [][TraceNext]_tvars
